@@ -485,6 +485,23 @@ pub fn has_ball(rows: &[Row], n: usize, delta: &Q) -> bool {
     feasible_closed(&shrunk, n).is_some()
 }
 
+/// `has_ball` restricted to the box |x|_inf <= 1e6.  With rounded coefficients two almost parallel
+/// hyperplanes can enclose a region that exists only at coordinates ~1e16; such a region is not
+/// "reachable by a margin" in any meaningful floating-point sense, so demands of the form "the
+/// library must keep / must report feasible" are made inside the box only.
+pub fn has_ball_boxed(rows: &[Row], n: usize, delta: &Q) -> bool {
+    let mut all: Vec<Row> = rows.to_vec();
+    let b = Q::int(1_000_000);
+    for j in 0..n {
+        let mut e = vec![Q::zero(); n];
+        e[j] = Q::one();
+        all.push(Row::le(e.clone(), b.clone()));
+        e[j] = Q::int(-1);
+        all.push(Row::le(e, b.clone()));
+    }
+    has_ball(&all, n, delta)
+}
+
 #[derive(Clone, Debug)]
 pub enum Opt {
     Empty,
